@@ -50,6 +50,7 @@ type Contract struct {
 	Reads     []string
 	Abstract  bool // body not verified here although in /repo ("assumed" contract, reported)
 	Sets      []*SetClause
+	Allocates int // objects the callee may allocate besides its results (fresh(x) in ensures refers to them)
 	Access    string // dispatch class (surface sweep)
 }
 
@@ -85,7 +86,18 @@ type SpecDB struct {
 	Ghosts    map[string]*GhostVar
 	Funcs     map[string]*GhostFunc
 	Axioms    []*Axiom
+	KeySpaces []*KeySpace
 	Files     []string
+}
+
+// KeySpace: a family of byte-string keys built as prefix ++ anything, plus exact keys. The directive is
+// checked when read (no prefix is a prefix of another prefix or of an exact key), so that "keys of
+// different families differ" is a fact about the literals, not an assumption.
+type KeySpace struct {
+	Name     string
+	Prefixes []string
+	Exact    []string
+	File     string
 }
 
 func newSpecDB() *SpecDB {
@@ -96,7 +108,7 @@ var labelRe = regexp.MustCompile(`^([a-zA-Z][a-zA-Z0-9_\-]*):\s+(.*)$`)
 
 var keywords = map[string]bool{"channel": true, "func": true, "interface": true, "props": true, "requires": true, "ensures": true,
 	"modifies": true, "nopanic": true, "inline": true, "pure": true, "loop": true, "closure": true, "invariant": true,
-	"ghost": true, "like": true, "sets": true, "axiom": true, "note": true, "reads": true, "abstract": true, "end": true, "access": true}
+	"ghost": true, "allocates": true, "like": true, "sets": true, "axiom": true, "note": true, "reads": true, "abstract": true, "end": true, "access": true, "keyspace": true}
 
 // parseSpecFile reads //@ lines (or bare lines in .spec files) into the db.
 // pkgShort qualifies unqualified function keys.
@@ -301,12 +313,25 @@ func (db *SpecDB) parseSpecFile(path string, src []byte, pkgShort string, truste
 			default:
 				return fmt.Errorf("%s: ghost var|func", loc)
 			}
+		case "keyspace":
+			ks, err := parseKeySpace(rest)
+			if err != nil {
+				return fmt.Errorf("%s: %v", loc, err)
+			}
+			ks.File = loc
+			db.KeySpaces = append(db.KeySpaces, ks)
 		case "axiom":
 			c, err := mkClause(rest)
 			if err != nil {
 				return err
 			}
 			db.Axioms = append(db.Axioms, &Axiom{Label: c.Label, E: c.E, Src: c.Src, File: loc})
+		case "allocates":
+			n, err := strconv.Atoi(strings.TrimSpace(rest))
+			if err != nil {
+				return fmt.Errorf("%s: allocates N", loc)
+			}
+			tgt.Allocates = n
 		case "like":
 			// like <key>: take over the clauses of another contract (an interface method's contract for its implementers)
 			src, ok := db.Contracts[strings.TrimSpace(rest)]
@@ -726,4 +751,56 @@ func (p *parser) primary() Expr {
 	}
 	p.fail("unexpected %q", t.s)
 	return nil
+}
+
+var ksTok = regexp.MustCompile(`"([^"]*)"|[A-Za-z_][A-Za-z0-9_]*`)
+
+// keyspace <name> prefix "a" "b" ... exact "c" ...
+func parseKeySpace(rest string) (*KeySpace, error) {
+	toks := ksTok.FindAllString(rest, -1)
+	if len(toks) < 2 {
+		return nil, fmt.Errorf("keyspace <name> prefix \"..\" ... exact \"..\" ...")
+	}
+	ks := &KeySpace{Name: toks[0]}
+	mode := ""
+	for _, t := range toks[1:] {
+		switch {
+		case t == "prefix" || t == "exact":
+			mode = t
+		case strings.HasPrefix(t, "\""):
+			v := t[1 : len(t)-1]
+			if mode == "prefix" {
+				ks.Prefixes = append(ks.Prefixes, v)
+			} else if mode == "exact" {
+				ks.Exact = append(ks.Exact, v)
+			} else {
+				return nil, fmt.Errorf("keyspace: literal before prefix/exact")
+			}
+		default:
+			return nil, fmt.Errorf("keyspace: unexpected %q", t)
+		}
+	}
+	for i, p := range ks.Prefixes {
+		if p == "" {
+			return nil, fmt.Errorf("keyspace %s: empty prefix", ks.Name)
+		}
+		for j, q := range ks.Prefixes {
+			if i != j && strings.HasPrefix(q, p) {
+				return nil, fmt.Errorf("keyspace %s: prefix %q is a prefix of %q: keys of the two families can collide", ks.Name, p, q)
+			}
+		}
+		for _, k := range ks.Exact {
+			if strings.HasPrefix(k, p) {
+				return nil, fmt.Errorf("keyspace %s: prefix %q is a prefix of the exact key %q", ks.Name, p, k)
+			}
+		}
+	}
+	for i, k := range ks.Exact {
+		for j, m := range ks.Exact {
+			if i != j && k == m {
+				return nil, fmt.Errorf("keyspace %s: exact key %q listed twice", ks.Name, k)
+			}
+		}
+	}
+	return ks, nil
 }
